@@ -4,7 +4,7 @@ import json
 import os
 
 from .core import REPO, ToolError, b2s, log, pgv, read_ndjson, run_tlc
-from .steps import replay_cases, tlc_cases, validate_pure_trace
+from .steps import replay_cases, tlc_cases, validate_pure_trace, validate_stateful_trace
 
 REGISTRY = {}
 
@@ -249,6 +249,25 @@ def retrace_trace(run, scratch, name, focus, n, queries, files, workers=10, time
         raise ToolError(f"{name}: most generated sessions fell outside the stated domain (vacuous trace)")
 
 
+def frameiter_trace(run, scratch, n, per, files):
+    """every next() call of the real iterators against the FrameIter cursor machine (stateful trace validation)"""
+    r = run_tlc(scratch, "MC_FrameIter", cfg="MC_FrameIter_thorough.cfg" if run.tier == "thorough" else "MC_FrameIter.cfg",
+                workers=8, timeout=1800)
+    if r.violation:
+        run.violation("MC_FrameIter", {"signature": {"step": "MC_FrameIter"}, "tlc": r.violation, "output": r.out[-4000:]})
+    run.add_tlc("MC_FrameIter", r, note="draining the cursor machine = Retrace!RemapFrame; exhausted iterators stay exhausted")
+    events = harness_trace(scratch, "frameiter", "frameiter", ["--seed", run.seed, "--n", n, "--queries", per,
+                                                               "--files", ",".join(files)])
+    nload = len([e for e in events if e["t"] == "load"])
+    idx = next(i for i, e in enumerate(events) if e["t"] == "next" and e["got"])
+
+    def corrupt(ev):
+        ev["got"][0]["line"] = ev["got"][0]["line"] + [9]
+        return ev
+    validate_stateful_trace(run, scratch, "Trace_FrameIter", "Trace_FrameIter", events, nload, idx, corrupt,
+                            signature=lambda b: {"handle": b.get("handle")})
+
+
 COMMON_ASSUME = ["TLC (tla2tools 1.8.0) and its Json/IOUtils module overrides",
                  "harness event/answer encoding (enc.rs, handles.rs), checked by binding canaries",
                  "bounded alphabets in model-checked generation; seeded sampling in traces"]
@@ -262,6 +281,7 @@ def c01(run, scratch):
     retrace_mc(run, scratch, "files_thorough" if t else "files_quick", "frame", workers=14 if t else 10)
     retrace_trace(run, scratch, "Trace_Retrace_frame", "frame", 200 if t else 40, 300 if t else 120, SMALL_CORPUS,
                   workers=14 if t else 10)
+    frameiter_trace(run, scratch, 60 if t else 15, 80, SMALL_CORPUS[:2])
     run.exhaustive = False
     run.assumptions += COMMON_ASSUME
 
@@ -292,6 +312,7 @@ def c04(run, scratch):
     t = run.tier == "thorough"
     retrace_mc(run, scratch, "names_thorough" if t else "names_quick", "lookup", workers=14 if t else 10)
     retrace_mc(run, scratch, "ambig_thorough" if t else "ambig_quick", "lookup", workers=14 if t else 10)
+    mc_reader(run, scratch)
     retrace_mc(run, scratch, "records_thorough" if t else "records_quick", "lookup", workers=14 if t else 10)
     retrace_trace(run, scratch, "Trace_Retrace_lookup", "lookup", 120 if t else 30, 300 if t else 120, SMALL_CORPUS,
                   workers=14 if t else 10)
@@ -469,6 +490,32 @@ def _c09_corrupt(ev):
     return ev
 
 
+def spec_written_files(run, scratch, thorough):
+    """Cache files written by the SPECIFICATION's writer (CacheWriter.tla, two string-table orders), checked WellFormed /
+    SameIndex by TLC and handed to the real reader, whose answers must equal Retrace!Answer."""
+    name = "MC_CacheWriter_thorough" if thorough else "MC_CacheWriter"
+    raw = tlc_cases(run, scratch, name, "MC_CacheWriter", cfg=name + ".cfg", workers=14 if thorough else 10, timeout=3000)
+    header = [c for c in raw if "queries" in c]
+    cases = [c for c in raw if "queries" not in c]
+    if not cases:
+        return
+
+    def corrupt(c):
+        c["wants"] = [[{"canary": 1}] for _ in c["wants"]]
+        return c
+    replay_cases(run, scratch, name, cases, "cachefile", header=header, corrupt=corrupt,
+                 signature=lambda c, m: {"api": m["api"].split("/")[-1][:1]})
+    run.sample({"spec_written_file_len": len(cases[-1]["files"][0])})
+
+
+def mc_reader(run, scratch):
+    r = run_tlc(scratch, "MC_CacheReader", cfg="MC_CacheReader.cfg", workers=8, timeout=900)
+    if r.violation:
+        run.violation("MC_CacheReader", {"signature": {"step": "MC_CacheReader"}, "tlc": r.violation, "output": r.out[-4000:]})
+    run.add_tlc("MC_CacheReader", r, note="binary search + range expansion + checked slicing on every key array <= 7 (sorted or not): "
+                                          "in bounds, terminates; exact on sorted arrays")
+
+
 @prop("C09")
 def c09(run, scratch):
     t = run.tier == "thorough"
@@ -482,6 +529,7 @@ def c09(run, scratch):
     if r.violation:
         run.violation("MC_CacheParse", {"signature": {"step": "MC_CacheParse"}, "tlc": r.violation, "output": r.out[-4000:]})
     run.add_tlc("MC_CacheParse", r, note="layout arithmetic of the documented format: full file accepted with implied length")
+    spec_written_files(run, scratch, t)
     run.exhaustive = False
     run.assumptions += COMMON_ASSUME + ["decoder CacheFormat.tla is written from the documented format only; the index it decodes "
                                         "is compared with Index!Blocks of the mapping as parsed by MappingSyntax"]
@@ -567,6 +615,7 @@ def c15(run, scratch):
     run.assumptions += COMMON_ASSUME + ["canonical serialisation = what the same build writes into a Vec"]
 
 
+REPLAYERS["MC_CacheWriter"] = lambda run, scratch, rec: None
 REPLAYERS["MC_CacheIO_policies"] = lambda run, scratch, rec: replay_cases(run, scratch, "MC_CacheIO_policies", [rec["case"]], "sink")
 
 
@@ -622,6 +671,7 @@ def c12(run, scratch):
     if r.violation:
         run.violation("MC_LineArith", {"signature": {"step": "MC_LineArith"}, "tlc": r.violation, "output": r.out[-4000:]})
     run.add_tlc("MC_LineArith_cache_saturating", r, note="all u32 field values x all lines at small width: no overflow")
+    mc_reader(run, scratch)
     events = harness_trace(scratch, "corrupt", "corrupt", ["--seed", run.seed, "--n", 600 if t else 120])
     acc = [e for e in events if e["parse"]["ok"]]
     run.sample({"corruption": acc[1]["what"] if len(acc) > 1 else "", "accepted": True, "probes": len(acc[1]["calls"]) if len(acc) > 1 else 0})
@@ -656,6 +706,7 @@ def c10(run, scratch):
             run.add_tlc("MC_CacheHistory_" + cfg, r)
         else:
             run.steps.append({"step": "MC_CacheHistory_" + cfg, "expected_counterexample_found": True})
+    spec_written_files(run, scratch, t)      # a third writer: the specification itself, read by the current reader
     files = SMALL_CORPUS + (BIG_CORPUS if t else [])
     events = harness_trace(scratch, "xver", "xver", ["--seed", run.seed, "--n", 300 if t else 80, "--queries", 120 if t else 60,
                                                      "--files", ",".join(files)])
